@@ -12,44 +12,10 @@
    not by tol = 0.1 (and 0.38 is reached: [arc_tolerance_not_met]).
    Two-sided Hausdorff bound 4 * tol between the emitted polyline and the arc
    { centre + r (cos th, sin th) : th = theta_start + f * dir * range, 0<=f<=1 }. *)
-From RM Require Import Model.ControlPoints Model.Curve Gen.Generated Proofs.ArcExact.
+From RM Require Import Model.ControlPoints Model.Curve Gen.Generated Proofs.ArcExact Proofs.HausdorffPlane.
 From Coq Require Import Reals Lra Lia Psatz.
 From Flocq Require Import Raux.
 Open Scope R_scope.
-
-(* ---------- plane geometry over the reals ---------- *)
-
-Definition sqd2 (p q : R * R) : R := sqd (fst p) (snd p) (fst q) (snd q).
-Definition dist2 (p q : R * R) : R := sqrt (sqd2 p q).
-Definition lerp2 (p q : R * R) (s : R) : R * R :=
-  ((1 - s) * fst p + s * fst q, (1 - s) * snd p + s * snd q).
-
-Lemma sqd2_nonneg p q : 0 <= sqd2 p q.
-Proof.
-  unfold sqd2, sqd. pose proof (pow2_ge_0 (fst p - fst q)). pose proof (pow2_ge_0 (snd p - snd q)). lra.
-Qed.
-
-Lemma sqd2_sym p q : sqd2 p q = sqd2 q p.
-Proof. unfold sqd2, sqd. ring. Qed.
-
-Lemma dist2_le p q b : 0 <= b -> sqd2 p q <= b ^ 2 -> dist2 p q <= b.
-Proof.
-  intros Hb H. unfold dist2. rewrite <- (sqrt_pow2 b Hb). apply sqrt_le_1_alt. exact H.
-Qed.
-
-Lemma dist2_ge p q b : 0 <= b -> b ^ 2 <= sqd2 p q -> b <= dist2 p q.
-Proof.
-  intros Hb H. unfold dist2. rewrite <- (sqrt_pow2 b Hb). apply sqrt_le_1_alt. exact H.
-Qed.
-
-Lemma lerp2_swap p q s : lerp2 p q s = lerp2 q p (1 - s).
-Proof. unfold lerp2. f_equal; ring. Qed.
-
-Lemma lerp2_0 p q : lerp2 p q 0 = p.
-Proof. destruct p. unfold lerp2. cbn [fst snd]. f_equal; ring. Qed.
-
-Lemma lerp2_1 p q : lerp2 p q 1 = q.
-Proof. destruct q. unfold lerp2. cbn [fst snd]. f_equal; ring. Qed.
 
 (* ---------- points of a circle ---------- *)
 
@@ -253,10 +219,6 @@ Section Circle.
 End Circle.
 
 (* ---------- the tolerance and the sagitta ---------- *)
-
-(* the real number denoted by a decimal constant of Gen.Generated *)
-Definition dec_R (d : bool * Z * Z) : R :=
-  let '(s, m, e) := d in (if s then -1 else 1) * IZR m * powerRZ 10 e.
 
 Definition arc_tol_R : R := dec_R circular_arc_tolerance_dec.
 
